@@ -201,7 +201,7 @@ SCOPE_WORDS = {
 }
 
 
-def no_shared_writes(ctx: Ctx, rule: str, shorts=None):
+def no_shared_writes(ctx: Ctx, rule: str, shorts=None, accept=("Fresh", "Self")):
     """A measure never writes into an array it did not create: its operands are the cached values of OTHER measures
     (lazyproperty values, blocks handed over by reference), so an in-place write changes what those report afterwards -
     the value of this property's measure, or of the one it borrowed from, then depends on which was read first.
@@ -221,7 +221,7 @@ def no_shared_writes(ctx: Ctx, rule: str, shorts=None):
             if not any(x in tag for x in words):
                 continue
         n += 1
-        if w.cls in ("Fresh", "Self"):
+        if w.cls in accept or "read-only flag" in w.sig:
             continue
         bad.append(w)
     ctx.count("write sites in this property's measure code", n)
@@ -269,6 +269,7 @@ FOOTPRINT_WORDS = {
     "C09": ("pruning",),
     "C11": ("variance", "std_err", "stderr", "stddev"),
     "C12": ("zscores", "pvalues"),
+    "C13": ("pairwise",),
     "C14": ("scale",),
     "C15": ("share_sum",),
     "C16": ("column_index",),
@@ -385,3 +386,137 @@ def float64_extractors(ctx: Ctx, rule: str = "float64-payload"):
                             ctx.violated(rule, where, t[:120], "np.array(..., dtype=np.float64) / .astype(np.float64)", "an integer payload keeps an integer dtype: products of bases overflow int64 for large tables and NaN cannot be stored")
     ctx.count("measure extractor array returns", n)
     ctx.require_min("measure extractor array returns", 8)
+
+
+# --------------------------------------------------------------------------- an object rebuilt from itself keeps all its settings
+def rebuild_forwards_settings(ctx: Ctx, rule: str, cls_short: str, cls_name: str, params: tuple):
+    """A method of class K that builds a NEW K to stand in for `self` (augment_response -> Cube(...)) must hand over every
+    setting the instance holds - a dropped argument silently falls back to the constructor default (population 0, minimum
+    base 0, no transforms ...).  `params`: the constructor parameters this property's quantities depend on."""
+    import ast as _ast
+
+    from ..symex import u as _u
+
+    ci = ctx.repo.cls(cls_short, cls_name)
+    init = ctx.repo.lookup(ci, "__init__")
+    if init is None:
+        return
+    all_params = init.params
+    n = 0
+    for m in ci.members.values():
+        if m.kind in ("classmethod", "staticmethod") or m.name == "__init__":
+            continue
+        for c in _ast.walk(m.node):
+            if isinstance(c, _ast.Call) and isinstance(c.func, _ast.Name) and c.func.id == cls_name and (len(c.args) + len(c.keywords)) >= 2:
+                # a re-build that carries settings over (a bare K(response) is a plain parse of another response)
+                n += 1
+                passed = set(all_params[: len(c.args)]) | {k.arg for k in c.keywords if k.arg}
+                for p in params:
+                    where = f"{cls_short}::{cls_name}.{m.name} [{cls_name}(...) forwards `{p}`]"
+                    if p in passed:
+                        ctx.held(rule, where, f"`{p}` is passed on", "")
+                    else:
+                        ctx.violated(rule, where, f"passed: {sorted(passed)}", f"`{p}` handed over to the rebuilt {cls_name}", f"the rebuilt object falls back to the default of `{p}`: the setting given by the caller is lost for this cube only")
+    ctx.count(f"{cls_name} rebuild sites", n)
+
+
+# --------------------------------------------------------------------------- lazyproperty caches under the wrapped function's name
+def lazyproperty_call_form(ctx: Ctx, rule: str = "descriptor.cache-key"):
+    """`lazyproperty` stores the value in the instance __dict__ under the NAME OF THE WRAPPED FUNCTION.  Used as a decorator
+    that name is the attribute's name.  Called as a function (`x = lazyproperty(getter)`, a property factory) the key is
+    the getter's name: two attributes produced from one getter share one cache slot - whichever is read first decides
+    what the other returns."""
+    import ast as _ast
+
+    from ..symex import u as _u
+
+    hits, n = [], 0
+    for mod in ctx.repo.modules.values():
+        short = mod.path.split("cr/cube/")[-1]
+        deco = set()
+        for node in _ast.walk(mod.tree):
+            if isinstance(node, (_ast.FunctionDef, _ast.AsyncFunctionDef)):
+                for d in node.decorator_list:
+                    deco.add(id(d))
+        for node in _ast.walk(mod.tree):
+            if isinstance(node, _ast.Call) and _u(node.func).split(".")[-1] == "lazyproperty" and id(node) not in deco:
+                n += 1
+                hits.append(f"{short}: {_u(node)[:70]} (line {node.lineno})")
+    if hits:
+        ctx.violated(rule, "package: lazyproperty(...) used as a function", hits, "@lazyproperty on the function that carries the attribute's name", "attributes built from one wrapped function share one cache slot")
+    else:
+        ctx.held(rule, "package: every use of lazyproperty", "decorator form only", "")
+
+
+# --------------------------------------------------------------------------- public values are assembled measure blocks
+def public_values_assembled(ctx: Ctx, rule: str, cls_name: str, props):
+    """A public array property of a partition is the ASSEMBLY of the corresponding measure's blocks on every path that
+    returns an array: a path that returns something else (an all-NaN array by a shape test, a constant) answers from the
+    display layer, with other rules than the measure's (the displayed shape is not the table's shape)."""
+    import ast as _ast
+
+    from ..symex import SUMMARIZER as _S, expand as _expand, strip_ifexp_paths as _paths, u as _u
+
+    ci = ctx.repo.cls("cubepart.py", cls_name)
+    for prop in props:
+        if ctx.repo.lookup(ci, prop) is None:
+            continue
+        # lazy properties are followed, METHODS stay symbolic (their loops / stores are opaque to SYMEX): a call of a
+        # private method counts as "from the measure" when that method (transitively) assembles measure blocks
+        from ..stmts import reachable_functions as _reach
+
+        def reaches_measure(name: str) -> bool:
+            return any("_assemble_" in _ast.unparse(f) or "self._measures" in _ast.unparse(f) for f in _reach(ctx.repo, ci, name, depth=3))
+
+        e = _expand(ctx.repo, ci, prop, stop=lambda m: m.name.startswith("_assemble") or m.name in ("_measures",) or m.kind not in ("lazyproperty", "property"))
+        where = f"cubepart.py::{cls_name}.{prop}"
+        bad = []
+        for gs, leaf in _paths(e):
+            t = _u(leaf)
+            if t == "None" or t.startswith("__raise__"):
+                continue
+
+            class _DropShapes(_ast.NodeTransformer):
+                # the SHAPE of an assembled array is not its values
+                def visit_Attribute(self, n):
+                    if n.attr in ("shape", "size", "ndim", "dtype"):
+                        return _ast.Constant(value=0)
+                    return self.generic_visit(n)
+
+                def visit_Call(self, n):
+                    if isinstance(n.func, _ast.Name) and n.func.id == "len":
+                        return _ast.Constant(value=0)
+                    return self.generic_visit(n)
+
+            import copy as _copy
+
+            stripped = _DropShapes().visit(_copy.deepcopy(leaf))
+            t = _u(stripped)
+            via_method = any(isinstance(c, _ast.Call) and isinstance(c.func, _ast.Attribute) and isinstance(c.func.value, _ast.Name) and c.func.value.id == "self" and reaches_measure(c.func.attr) for c in _ast.walk(stripped))
+            if "_assemble_" not in t and "self._measures" not in t and not via_method:
+                bad.append((" & ".join(("" if p else "not ") + _u(g)[:40] for g, p in gs), t[:60]))
+        if bad:
+            ctx.violated(rule, where, bad[:3], "every array-returning path assembles the measure's blocks", "an answer given from the display layer (displayed shape, constants) instead of from the measure")
+        else:
+            ctx.held(rule, where, "every array-returning path goes through the measure and its assembly", "")
+
+
+def payload_value_truthiness(ctx: Ctx, rule: str = "payload-truthiness", shorts=("cube.py",)):
+    """Truth tests of values read from the response (0 and "" are values) in the code that edits / pads responses."""
+    from .. import truthiness as T
+    from ..loader import AnalysisError
+
+    if T.payload_self_check() != 1:
+        raise AnalysisError("payload-truthiness lint: the positive control is no longer recognised")
+    n, hits = 0, []
+    for m in ctx.repo.all_members():
+        short = m.cls.module.path.split("cr/cube/")[-1]
+        if short not in shorts:
+            continue
+        n += 1
+        for _l, context, expr in T.payload_value_truth_tests(m.node):
+            hits.append((f"{short}::{m.cls.name}.{m.name} [{expr[:50]}]", context, expr))
+    for where, context, expr in hits:
+        ctx.violated(rule, where, f"truth test ({context}) of {expr}", "`is not None` / a type test", "a row whose value is 0 or '' is dropped: every later count is paired with the wrong row")
+    if not hits:
+        ctx.held(rule, f"{', '.join(shorts)}: every truth test", f"{n} functions, no payload value is tested for truth", "", "positive control recognised")
